@@ -8,9 +8,49 @@ import (
 	"strings"
 	"unicode/utf8"
 
+	"github.com/moov-io/iso8583/padding"
+
 	"verif/harness/gen"
 	"verif/harness/impl"
 )
+
+// checkPadAfterOthers: a padder for a single-byte pad character behaves the same whatever other
+// padders (for other characters, among them multi-byte runes with the same low byte) were created
+// in the process before it.
+func checkPadAfterOthers(rep *Reporter, kind string, c byte, other rune) {
+	line := fmt.Sprintf("D %s %02x padafter U+%04X", kind, c, other)
+	safely(rep, line, func() {
+		if !utf8.ValidRune(other) {
+			return
+		}
+		_ = padding.Left(other)
+		_ = padding.Right(other)
+		p, _ := impl.Padder(kind, fmt.Sprintf("%02x", c))
+		if p == nil {
+			return
+		}
+		rep.Case(line)
+		v := []byte{'a', 'b'}
+		if c == 'a' || c == 'b' {
+			v = []byte{'x', 'y'}
+		}
+		var want []byte
+		if kind == "L" {
+			want = append(bytes.Repeat([]byte{c}, 3), v...)
+		} else {
+			want = append(append([]byte{}, v...), bytes.Repeat([]byte{c}, 3)...)
+		}
+		if got := p.Pad(append([]byte{}, v...), 5); !bytes.Equal(got, want) {
+			rep.Viol("a padder for a single-byte pad character pads differently after a padder for another character was created", line,
+				fmt.Sprintf("Pad(%x, 5) = %x, want %x", v, got, want))
+			return
+		}
+		if got := p.Unpad(append([]byte{}, want...)); !bytes.Equal(got, v) {
+			rep.Viol("a padder for a single-byte pad character unpads differently after a padder for another character was created", line,
+				fmt.Sprintf("Unpad(%x) = %x, want %x", want, got, v))
+		}
+	})
+}
 
 func init() {
 	Registry["C20"] = &Oracle{Run: runC20, Lines: linesC20}
@@ -127,6 +167,14 @@ func runC20(t gen.Tier, r *gen.Rng, rep *Reporter) {
 				}
 			}
 			rec(nil)
+		}
+	}
+	for _, kind := range []string{"L", "R"} {
+		for c := 0; c < 128; c++ {
+			for _, hi := range []rune{0x80, 0x100, 0x200, 0x2000, 0x10000} {
+				checkPadAfterOthers(rep, kind, byte(c), hi+rune(c))
+			}
+			checkPadAfterOthers(rep, kind, byte(c), rune((c+1)%128))
 		}
 	}
 	for _, kind := range []string{"nil", "none"} {
